@@ -10,6 +10,13 @@
 (* Expected(...) is written from the property text; where the text leaves  *)
 (* a class open and the front end has a documented behaviour the clause    *)
 (* is named.                                                               *)
+(*                                                                         *)
+(* The leaf a submission gets back from QueueLeaf is opened field by field *)
+(* (Echoes): besides broken framing (ends early, goes on, absent) every    *)
+(* enumerated field with values the protocol does not define and every     *)
+(* vector with a floor at length 0, alone and combined, in perfectly       *)
+(* framed TLS - none of them is a MerkleTreeLeaf, each must end in 5xx     *)
+(* without an SCT.                                                         *)
 (***************************************************************************)
 EXTENDS Naturals, Sequences, TLC
 
@@ -52,9 +59,61 @@ MalformedClass(m) ==
     [] m = "emptyProofList" -> "4xx"      \* NoProofMeansNotFound: the backend answers an unknown hash with its root only
     [] OTHER -> "5xx"
 
-Fault == [kind : {"code"}, code : Codes] \cup [kind : {"malformed"}, class : STRING]
+(* ---- the leaf QueueLeaf echoes, field by field (RFC 6962 3.4 / 3.2 / 3.1) ---- *)
+\*   struct { Version version; MerkleLeafType leaf_type;
+\*            select (leaf_type) { case timestamped_entry: TimestampedEntry; } } MerkleTreeLeaf;
+\*   struct { uint64 timestamp; LogEntryType entry_type;
+\*            select (entry_type) { case x509_entry: ASN.1Cert; case precert_entry: PreCert; } signed_entry;
+\*            CtExtensions extensions; } TimestampedEntry;
+\*   opaque ASN.1Cert<1..2^24-1>;  struct { opaque issuer_key_hash[32]; TBSCertificate tbs_certificate; } PreCert;
+\*   opaque TBSCertificate<1..2^24-1>;  opaque CtExtensions<0..2^16-1>;
+\*   enum { v1(0), (255) } Version;  enum { timestamped_entry(0), (255) } MerkleLeafType;
+\*   enum { x509_entry(0), precert_entry(1), (65535) } LogEntryType;
+\* The catalogue classes echoedLeafUndecodable / Trailing / Empty break the FRAMING of the echoed leaf (it ends early,
+\* goes on after its end, is absent).  An echo can also be framed perfectly - every length prefix is honoured, nothing
+\* is left over - and still not be a MerkleTreeLeaf of this protocol: an enumerated field holds a value the protocol
+\* does not define, or a vector is shorter than its declared floor.  The echo is described by its fields; every
+\* description that is not WellFormedV1 is a fault of the catalogue.
+\* NAMED CLAUSE EchoVersionUnasserted.  "version is the version of the protocol to which the MerkleTreeLeaf corresponds.
+\* This version is v1."  (3.4)  An echo that is a well-formed v1 leaf in everything but its version octet is framed
+\* correctly and the library's codec reads it (Version is an enumeration that admits every octet); the front end never
+\* looks at the octet and answers 200 with a v1 SCT over the echoed entry.  The property speaks of a leaf that "does
+\* not decode" and does not say that the version must be refused (the same class is unasserted for the entry parsers
+\* in C04): the case stays in the matrix, is executed, and its status is RECORDED, not judged - only the clauses that
+\* hold for every outcome are (no crash; an SCT only with 200; the request log agrees with the status).  With the
+\* switch TRUE the reading "another version is not a leaf of this protocol: 5xx, no SCT" would be asserted instead.
+\* A version other than v1 TOGETHER with another deviation is a fault like that deviation alone.
+EchoVersionAsserted == FALSE
+EchoVersions   == {0, 1, 255}                  \* v1 is 0
+EchoLeafTypes  == {0, 1, 255}                  \* timestamped_entry is 0
+EchoEntryTypes == {0, 1, 2, 32768, 65535}      \* x509_entry 0, precert_entry 1; 32768 is the number the library's own
+                                               \* experimental JSON entry uses (not an RFC 6962 entry, never to be signed here)
+\* the length of the ASN.1Cert (x509_entry) / TBSCertificate (precert_entry) vector: as the honest leaf has it, or 0
+\* with a well-formed 3-byte length prefix 000000 (the floor of both vectors is 1)
+EchoLens == {"own", "zero"}
+\* CtExtensions<0..2^16-1>: empty (what a v1 log writes) or some octets (within bounds either way)
+EchoExts == {"none", "some"}
+\* what follows leaf_type: the TimestampedEntry, or nothing at all (only of interest under an unknown leaf_type, where
+\* the select has no arm and a decoder may not make one up)
+EchoBodies == {"entry", "absent"}
+Echoes == {e \in [version : EchoVersions, leafType : EchoLeafTypes, entryType : EchoEntryTypes, len : EchoLens,
+                  ext : EchoExts, body : EchoBodies] :
+             /\ (e.body = "absent" => e.leafType # 0)
+             \* under an unknown leaf_type the inner fields are not reached: one honest representative each
+             /\ (e.leafType # 0 => e.entryType \in {0, 1} /\ e.len = "own" /\ e.ext = "none")}
+\* "the echoed leaf decodes": as a v1 MerkleTreeLeaf of RFC 6962
+WellFormedV1(e) == /\ e.version = 0 /\ e.leafType = 0 /\ e.body = "entry"
+                   /\ e.entryType \in {0, 1} /\ e.len # "zero"
+EchoFaults == {e \in Echoes : ~WellFormedV1(e)}
+OnlyVersionDeviates(e) == e.version # 0 /\ WellFormedV1([e EXCEPT !.version = 0])
+EchoClass(e) == IF ~EchoVersionAsserted /\ OnlyVersionDeviates(e) THEN "unasserted" ELSE "5xx"
 
-Expected(ep, f) == IF f.kind = "code" THEN CodeClass(f.code) ELSE MalformedClass(f.class)
+Fault == [kind : {"code"}, code : Codes] \cup [kind : {"malformed"}, class : STRING]
+         \cup [kind : {"malformed"}, class : {"echoedLeafFields"}, echo : EchoFaults]
+
+Expected(ep, f) == IF f.kind = "code" THEN CodeClass(f.code)
+                   ELSE IF f.class = "echoedLeafFields" THEN EchoClass(f.echo)
+                   ELSE MalformedClass(f.class)
 
 (* ---- bad requests: 4xx before any backend call ---- *)
 \* badEscape / semicolonSeparator: a query string that is malformed as a whole (an invalid %-escape, a ';'
@@ -82,15 +141,31 @@ FaultCases == {[t |-> "fault", ep |-> ep, fault |-> [kind |-> "code", code |-> k
                   ep \in {e \in Endpoints : RPC(e) # "none"}, k \in Codes, p \in 1..3, m \in BOOLEAN}
               \cup UNION {{[t |-> "fault", ep |-> ep, fault |-> [kind |-> "malformed", class |-> x], pos |-> p, mask |-> m] :
                              x \in Malformed(RPC(ep)), p \in 1..3, m \in BOOLEAN} : ep \in Endpoints}
+\* the field-by-field echoes: both submission endpoints (the honest leaf is an x509_entry on add-chain and a
+\* precert_entry on add-pre-chain; the echo's entry_type is the description's, so "the other arm" occurs on both)
+EchoCases == {[t |-> "fault", ep |-> ep, fault |-> [kind |-> "malformed", class |-> "echoedLeafFields", echo |-> e], pos |-> p, mask |-> m] :
+                 ep \in {x \in Endpoints : RPC(x) = "QueueLeaf"}, e \in EchoFaults, p \in 1..3, m \in BOOLEAN}
 ParamCases == UNION {{[t |-> "param", ep |-> ep, class |-> x] : x \in ParamClasses(ep)} : ep \in Endpoints}
 
-Init == c \in FaultCases \cup ParamCases
+Init == c \in FaultCases \cup EchoCases \cup ParamCases
 Next == UNCHANGED c
 
 Exp(x) == IF x.t = "fault" THEN Expected(x.ep, x.fault) ELSE "4xx-nobackend"
 
 \* the model-level statement of "never surfaces as success"
-NeverOK == Exp(c) \in {"4xx", "429", "503", "504", "5xx", "4xx-nobackend"}
+\* (the only case without a demanded status class is the named clause EchoVersionUnasserted)
+NeverOK == \/ Exp(c) \in {"4xx", "429", "503", "504", "5xx", "4xx-nobackend"}
+           \/ /\ Exp(c) = "unasserted" /\ ~EchoVersionAsserted
+              /\ c.t = "fault" /\ c.fault.kind = "malformed" /\ c.fault.class = "echoedLeafFields" /\ OnlyVersionDeviates(c.fault.echo)
 \* retryable statuses are exactly quota / unavailability / timeout
+\* an echo in the fault matrix is never a leaf of the protocol, and every way of not being one is in the matrix:
+\* each enumerated field with each undefined value, each floored vector at length 0, alone and combined
+EchoFaultsAreFaults ==
+  /\ (c.t = "fault" /\ c.fault.kind = "malformed" /\ c.fault.class = "echoedLeafFields") =>
+        (~WellFormedV1(c.fault.echo) /\ (Exp(c) = "5xx" \/ (~EchoVersionAsserted /\ OnlyVersionDeviates(c.fault.echo))))
+  /\ \A v \in EchoVersions \ {0} : \E e \in EchoFaults : e.version = v /\ e.leafType = 0 /\ e.entryType \in {0, 1} /\ e.len = "own"
+  /\ \A l \in EchoLeafTypes \ {0} : \A b \in EchoBodies : \E e \in EchoFaults : e.version = 0 /\ e.leafType = l /\ e.body = b
+  /\ \A y \in EchoEntryTypes \ {0, 1} : \E e \in EchoFaults : e.version = 0 /\ e.leafType = 0 /\ e.entryType = y /\ e.len = "own"
+  /\ \A y \in {0, 1} : \A x \in EchoExts : \E e \in EchoFaults : e.version = 0 /\ e.leafType = 0 /\ e.entryType = y /\ e.len = "zero" /\ e.ext = x
 RetryableOnlyForTransient == (c.t = "fault" /\ c.fault.kind = "malformed") => Exp(c) \notin {"429", "503", "504"}
 =============================================================================
